@@ -11,7 +11,7 @@ LEVEL = "model_checking"
 BOUNDS = {
     "quick": "bivariate: two trains with 0..3 spikes each, n1+n2 <= 5; multivariate: 3 trains with 0..2 spikes "
              "each, at most 4 spikes in total; (max_tau, MRTS) in {(None, omitted), (symbolic>0, symbolic>0)}; py and pyx",
-    "thorough": "bivariate: 0..4 spikes each, n1+n2 <= 7; multivariate: 3 trains with 0..2 spikes each (all), "
+    "thorough": "bivariate: 0..4 spikes each, n1+n2 <= 6 (<= 5 with symbolic max_tau/MRTS; 4 spikes only py); multivariate: 3 trains with 0..2 spikes each (all), "
                 "(3,2,1) in every order, 4 trains with 0..1 spikes; same parameter settings; py and pyx",
 }
 OUTSIDE = "larger trains / more trains; `indices` selections are the subject of C14"
@@ -22,12 +22,12 @@ PARAMS = [("none", "omit"), ("pos", "pos")]
 
 def configs(tier):
     nb = 3 if tier == "quick" else 4
-    tot = 5 if tier == "quick" else 7
+    tot = 5 if tier == "quick" else 6
     for be in ("py", "pyx"):
         for mt, mk in PARAMS:
             for n1 in range(nb + 1):
                 for n2 in range(nb + 1):
-                    if n1 + n2 > tot:
+                    if n1 + n2 > tot or (mk == "pos" and n1 + n2 > 5) or (max(n1, n2) == 4 and be == "pyx"):
                         continue
                     yield dict(name="bi-%s-mt%s-m%s-%d+%d" % (be, mt, mk, n1, n2), kind="bi", backend=be,
                                mt=mt, m=mk, ns=[n1, n2], cost=5 ** (n1 + n2) * (3 if mk == "pos" else 1),
@@ -40,7 +40,9 @@ def configs(tier):
                 sizes += list(set(itertools.permutations((3, 2, 1))))
                 sizes += [ns for ns in itertools.product(range(2), repeat=4)]
             for ns in sizes:
-                if mt == "pos" and sum(ns) > (3 if tier == "quick" else 5):
+                if mt == "pos" and sum(ns) > (3 if tier == "quick" else 4):
+                    continue
+                if sum(ns) >= 6 and be == "pyx":
                     continue
                 yield dict(name="multi-%s-mt%s-m%s-%s" % (be, mt, mk, "+".join(map(str, ns))), kind="multi",
                            backend=be, mt=mt, m=mk, ns=list(ns), cost=6 ** sum(ns) * (3 if mk == "pos" else 1),
